@@ -220,6 +220,10 @@ def run(ctx, chk, tier):
     from . import c11
     c11.dynamic_method(ctx, chk, rule="R18.7", classes=(c11.GROUP,))
     frame_state_untouched(ctx, chk)
+    # the intervals of the frame are utils.bootstrap_ci applied to the (N, G, T) replicate array: its formula and axis roles (C13) are part of
+    # "computed for the same quantity, under the same labels"
+    from . import c13
+    c13.run(ctx, chk, tier)
     chk.floor("R18.2", 12, "12 configuration combinations")
     chk.floor("R18.3", 6, "6 bootstrap combinations")
     chk.floor("R18.8", 1, "the BiasFrame methods")
